@@ -43,6 +43,22 @@ Theorem ALGO_sha256_wf : forall msg, wf_bytes (sha256 msg).
 Proof. exact sha256_wf. Qed.
 Print Assumptions ALGO_sha256_wf.
 
+(* absorbing whole blocks first: the shape of streaming (Write/Sum) implementations *)
+Theorem ALGO_words_le_app : forall a b,
+  Nat.modulo (List.length a) 4 = 0%nat -> words_le (a ++ b)%list = (words_le a ++ words_le b)%list.
+Proof. exact words_le_app. Qed.
+Print Assumptions ALGO_words_le_app.
+Theorem ALGO_fold_blocks16_app : forall (St : Type) (f : St -> list N -> St) st a b,
+  Nat.modulo (List.length a) 16 = 0%nat ->
+  fold_blocks16 f st (a ++ b)%list = fold_blocks16 f (fold_blocks16 f st a) b.
+Proof. exact @fold_blocks16_app. Qed.
+Print Assumptions ALGO_fold_blocks16_app.
+Theorem ALGO_md4_split : forall a b, Nat.modulo (List.length a) 64 = 0%nat ->
+  md4 (a ++ b)%list =
+  md4_output (md4_blocks (md4_blocks md4_init (words_le a)) (words_le (md_pad_le_from (lenN a) b))).
+Proof. exact md4_split. Qed.
+Print Assumptions ALGO_md4_split.
+
 (* HMAC: the tag has the length of the hash output (generic, then the three instances) *)
 Theorem ALGO_hmac_length : forall (H : list N -> list N) (n : nat), (forall x, List.length (H x) = n) ->
   forall B key text, List.length (hmac H B key text) = n.
@@ -116,6 +132,12 @@ Print Assumptions ALGO_aes_encrypt_length.
 Theorem ALGO_aes_decrypt_length : forall key block, List.length block = 16%nat -> List.length (aes_decrypt key block) = 16%nat.
 Proof. exact aes_decrypt_length. Qed.
 Print Assumptions ALGO_aes_decrypt_length.
+Theorem ALGO_aes_encrypt_wf : forall key block, wf_bytes key -> wf_bytes block -> wf_bytes (aes_encrypt key block).
+Proof. exact aes_encrypt_wf. Qed.
+Print Assumptions ALGO_aes_encrypt_wf.
+Theorem ALGO_aes_decrypt_wf : forall key block, wf_bytes key -> wf_bytes block -> wf_bytes (aes_decrypt key block).
+Proof. exact aes_decrypt_wf. Qed.
+Print Assumptions ALGO_aes_decrypt_wf.
 Theorem ALGO_cbc_encrypt_blocks_length : forall E iv blocks, List.length (cbc_encrypt_blocks E iv blocks) = List.length blocks.
 Proof. exact cbc_encrypt_blocks_length. Qed.
 Print Assumptions ALGO_cbc_encrypt_blocks_length.
@@ -127,6 +149,9 @@ Print Assumptions ALGO_cbc_decrypt_blocks_length.
 Theorem ALGO_rc4_length : forall key data, List.length (rc4 key data) = List.length data.
 Proof. exact rc4_length. Qed.
 Print Assumptions ALGO_rc4_length.
+Theorem ALGO_rc4_wf : forall key data, wf_bytes data -> wf_bytes (rc4 key data).
+Proof. exact rc4_wf. Qed.
+Print Assumptions ALGO_rc4_wf.
 Theorem ALGO_cmac_length : forall (E : list N -> list N) (bsz : nat), (forall x, List.length (E x) = bsz) ->
   forall msg, List.length (cmac_spec E bsz msg) = bsz.
 Proof. exact cmac_length. Qed.
@@ -134,6 +159,12 @@ Print Assumptions ALGO_cmac_length.
 Theorem ALGO_cmac_des_length : forall key msg, List.length (cmac_des key msg) = 8%nat.
 Proof. exact cmac_des_length. Qed.
 Print Assumptions ALGO_cmac_des_length.
+Theorem ALGO_cmac_des_wf : forall key msg, wf_bytes (cmac_des key msg).
+Proof. exact cmac_des_wf. Qed.
+Print Assumptions ALGO_cmac_des_wf.
+Theorem ALGO_cmac_aes_length : forall key msg, List.length (cmac_aes key msg) = 16%nat.
+Proof. exact cmac_aes_length. Qed.
+Print Assumptions ALGO_cmac_aes_length.
 
 (* Base64, UTF-16, UTF-8: decoding an encoding gives back the input, for ALL inputs *)
 Theorem ALGO_b64_decode_encode : forall l, wf_bytes l -> b64_decode (b64_encode l) = Some l.
